@@ -426,7 +426,9 @@ type leaf struct {
 	chain []string // labels of the enclosing clusters, outermost first
 }
 
-func (l leaf) full() string { return strings.Join(append(append([]string{}, l.chain...), l.label), ".") }
+func (l leaf) full() string {
+	return strings.Join(append(append([]string{}, l.chain...), l.label), ".")
+}
 
 type layout struct {
 	leaves   []leaf
@@ -442,7 +444,7 @@ type dotParser struct {
 }
 
 func (p *dotParser) peek() token { return p.toks[p.pos] }
-func (p *dotParser) next() token  { t := p.toks[p.pos]; p.pos++; return t }
+func (p *dotParser) next() token { t := p.toks[p.pos]; p.pos++; return t }
 func (p *dotParser) expect(kind, text string) error {
 	t := p.next()
 	if t.kind != kind || (text != "" && t.text != text) {
@@ -650,7 +652,9 @@ func checkDot(text string, nodes map[string]bool, required, allowed map[pair]boo
 		return fmt.Sprintf("DOT readers disagree: library sees %d edges, structural reader %d", le, len(lay.edges))
 	}
 	// judge in a fixed order: the text's own order follows map iteration inside the tool
-	sort.Slice(lay.leaves, func(i, j int) bool { return lay.leaves[i].full()+"\x00"+lay.leaves[i].id < lay.leaves[j].full()+"\x00"+lay.leaves[j].id })
+	sort.Slice(lay.leaves, func(i, j int) bool {
+		return lay.leaves[i].full()+"\x00"+lay.leaves[i].id < lay.leaves[j].full()+"\x00"+lay.leaves[j].id
+	})
 	idName := map[string]string{}
 	for _, l := range lay.leaves {
 		idName[l.id] = l.full()
